@@ -123,6 +123,14 @@ class Exec:
             if src not in s.eps or dst not in s.eps or s.terminated[dst]:
                 return False
             return hostile.inject(s, src, ptype, bytes.fromhex(hexpayload), tag)
+        if op == "spoof":
+            # a copy of the i-th datagram in flight (from the client) arrives from a spoofed source address
+            cand = [j for j, d in enumerate(s.net) if d["src"] == "c"]
+            if not cand:
+                return False
+            j = cand[st[1] % len(cand)]
+            s.deliver(j, from_addr=("10.0.0.%d" % (50 + st[2] % 3), 7000 + st[2] % 3), keep=True, note="spoof")
+            return True
         if op == "corrupt":
             # deliver a copy of the i-th datagram in flight with one byte altered; the original stays in flight
             if not s.net:
@@ -228,12 +236,15 @@ def random_script(rnd, n_steps, profile):
             out.append(["blackout"])
         elif k == "corrupt":
             out.append(["corrupt", rnd.randrange(8), rnd.choice([30, 60, 200, 700, 1150])])
+        elif k == "spoof":
+            out.append(["spoof", rnd.randrange(8), rnd.randrange(3)])
     return out
 
 
 PROFILES = {
     "closing": {"write": 4, "deliver": 6, "drop": 1, "dup": 0.5, "timer": 2, "late": 0.7, "tick": 1, "ping": 0.5,
                 "close": 0.8, "reset": 0.3, "keyupdate": 0.3, "rebind": 0.2, "corrupt": 0.5},
+    "amplify": {"write": 5, "deliver": 6, "drop": 2, "dup": 1, "timer": 3, "spoof": 2, "rebind": 1.5, "corrupt": 0.5, "changecid": 0.5},
     "ptoclose": {"write": 3, "drop": 5, "timer": 4, "deliver": 1, "close": 0.6, "corrupt": 0.3},
     "blackout": {"write": 4, "deliver": 6, "drop": 1, "timer": 2, "tick": 1, "blackout": 0.5},
     "benign":  {"write": 5, "deliver": 8, "ping": 1, "tick": 1, "timer": 1},
